@@ -13,7 +13,10 @@ pub fn with_verbosity(args: &[String], stdin_len: usize) -> Vec<String> {
     // file names differ from run to run: hash the options only
     for a in args { if !a.contains('/') { a.hash(&mut h); } }
     stdin_len.hash(&mut h);
-    let flag = ["", "", "-v", "-vv", "-vvv"][(h.finish() % 5) as usize];
+    // quiet flags as well, wherever no info-level line is read back (every command but a non-strict `create`, whose summary of skipped
+    // sites is an info line): errors are reported whatever the verbosity
+    let quiet_ok = args[0] != "create" || args.iter().any(|a| a == "--strict");
+    let flag = if quiet_ok { ["", "-q", "-v", "-vv", "-vvv", "-qq", ""][(h.finish() % 7) as usize] } else { ["", "", "-v", "-vv", "-vvv"][(h.finish() % 5) as usize] };
     let mut out = args.to_vec();
     if !flag.is_empty() { out.insert(1, flag.to_string()); }
     out
